@@ -95,6 +95,16 @@ func (uv *UtxoCache) Remove(address string, utxoKey string) {
 	uv.remove(address, utxoKey)
 }
 
+// Clear drops every entry in place. The cache object (and its mutex) stays the same, so a goroutine that
+// holds the lock while the cache is cleared releases the mutex it locked
+func (uv *UtxoCache) Clear() {
+	uv.mutex.Lock()
+	defer uv.mutex.Unlock()
+	uv.Available = map[string]map[string]*CacheItem{}
+	uv.All = map[string]map[string]*CacheItem{}
+	uv.List = list.New()
+}
+
 // Lock used to lock cache
 func (uv *UtxoCache) Lock() {
 	uv.mutex.Lock()
